@@ -87,3 +87,25 @@ impl Service {
         ))
     }
 }
+
+/// The vote table on its own (`service::ip_vote::IpVote`), for vote histories with more voters than
+/// a routing table holds.
+pub struct VIpVote(IpVote);
+
+impl VIpVote {
+    pub fn new(minimum_threshold: usize, vote_duration: std::time::Duration) -> Self {
+        VIpVote(IpVote::new(minimum_threshold, vote_duration))
+    }
+
+    pub fn insert(&mut self, key: NodeId, socket: SocketAddr) {
+        self.0.insert(key, socket)
+    }
+
+    pub fn majority(&mut self) -> (Option<std::net::SocketAddrV4>, Option<std::net::SocketAddrV6>) {
+        self.0.majority()
+    }
+
+    pub fn has_minimum_threshold(&mut self) -> (bool, bool) {
+        self.0.has_minimum_threshold()
+    }
+}
